@@ -210,6 +210,22 @@ impl RotationState {
     }
 }
 
+// ---- verification hooks (guarded) ----
+#[cfg(feature = "dswd_vpncloud_verif")]
+impl RotationMessage {
+    pub fn verif_new(message_id: u64, propose: &[u8], confirm: Option<&[u8]>) -> Self {
+        Self {
+            message_id,
+            propose: EcdhPublicKey::new(&X25519, propose.iter().copied().collect()),
+            confirm: confirm.map(|c| EcdhPublicKey::new(&X25519, c.iter().copied().collect())),
+        }
+    }
+
+    pub fn verif_fields(&self) -> (u64, Vec<u8>, Option<Vec<u8>>) {
+        (self.message_id, self.propose.bytes().to_vec(), self.confirm.as_ref().map(|c| c.bytes().to_vec()))
+    }
+}
+
 #[cfg(test)]
 mod tests {
     use super::*;
